@@ -422,6 +422,142 @@ var Probes = []Probe{
 		Run: formatVsGo("%d", &tengo.String{Value: "s"}, "s")},
 	{ID: "O39", Props: []string{"C17"}, Input: `format("%c", bytes("ab"))`, WhatFail: "a bytes operand under a documented verb other than s q x X v d prints nothing where Go's fmt prints the element list: \"\" for [a b]",
 		Run: formatVsGo("%c", &tengo.Bytes{Value: []byte("ab")}, []byte("ab"))},
+	{ID: "O46", Props: []string{"C02", "C12"}, Input: "cp.Compile(`a := 7; b := 7; mk := func() { x := 1; return func() { return x } }; f := func() { return \"hello\" }`); b1 := cp.Bytecode(); b1.RemoveDuplicates(); cp.Compile(`out := mk()(); s := f()`); b2 := cp.Bytecode(); run b2", WhatFail: "RemoveDuplicates rewrote the instructions of the compiler's own function constants in place: a later Bytecode() of the same Compiler pairs the renumbered function bodies with the un-deduplicated constant table (CLOSURE names an Int: 'not function'; f() returns 7)",
+		Run: func() (fails bool, obs string) {
+			defer func() {
+				if r := recover(); r != nil {
+					fails, obs = true, fmt.Sprintf("panic: %v", r)
+				}
+			}()
+			fs := parser.NewFileSet()
+			parse := func(src string) *parser.File {
+				b := []byte(src)
+				f, err := parser.NewParser(fs.AddFile("(main)", -1, len(b)), b, nil).ParseFile()
+				if err != nil {
+					panic(err)
+				}
+				return f
+			}
+			st := tengo.NewSymbolTable()
+			cp := tengo.NewCompiler(fs.AddFile("(x)", -1, 0), st, nil, nil, nil)
+			if err := cp.Compile(parse("a := 7\nb := 7\nmk := func() { x := 1; return func() { return x } }\nf := func() { return \"hello\" }\n")); err != nil {
+				return false, ""
+			}
+			b1 := cp.Bytecode()
+			orig := append([]tengo.Object{}, b1.Constants...)
+			var before [][]byte
+			for _, c := range orig {
+				if fn, ok := c.(*tengo.CompiledFunction); ok {
+					before = append(before, append([]byte{}, fn.Instructions...))
+				}
+			}
+			b1.RemoveDuplicates()
+			k := 0
+			for _, c := range orig {
+				if fn, ok := c.(*tengo.CompiledFunction); ok {
+					if string(fn.Instructions) != string(before[k]) {
+						return true, "the instructions of a function constant the Compiler still holds changed when RemoveDuplicates ran on a Bytecode taken from it"
+					}
+					k++
+				}
+			}
+			if err := cp.Compile(parse("out := mk()()\ns := f()\n")); err != nil {
+				return false, ""
+			}
+			b2 := cp.Bytecode()
+			globals := make([]tengo.Object, tengo.GlobalsSize)
+			if err := tengo.NewVM(b2, globals, -1).Run(); err != nil {
+				return true, "run of the second Bytecode: " + err.Error()
+			}
+			if so, _, ok := st.Resolve("s", false); ok {
+				if v, isStr := globals[so.Index].(*tengo.String); !isStr || v.Value != "hello" {
+					return true, fmt.Sprintf("s = %v, want \"hello\"", globals[so.Index])
+				}
+			}
+			return false, ""
+		}},
+	{ID: "O47", Props: []string{"C02"}, Input: "base := c0.Bytecode().Constants (len 5, cap 8); cA := NewCompiler(.., base, ..) compiles closures; cB := NewCompiler(.., base, ..) compiles `outB := \"boom\"`; run cA's Bytecode", WhatFail: "NewCompiler appended to the constants slice it was given: two compilers continuing from one base table wrote into the same backing array, the second overwrote function constants of the first's Bytecode (CLOSURE names a String)",
+		Run: func() (fails bool, obs string) {
+			defer func() {
+				if r := recover(); r != nil {
+					fails, obs = true, fmt.Sprintf("panic: %v", r)
+				}
+			}()
+			fs := parser.NewFileSet()
+			parse := func(src string) *parser.File {
+				b := []byte(src)
+				f, err := parser.NewParser(fs.AddFile("(main)", -1, len(b)), b, nil).ParseFile()
+				if err != nil {
+					panic(err)
+				}
+				return f
+			}
+			c0 := tengo.NewCompiler(fs.AddFile("(0)", -1, 0), tengo.NewSymbolTable(), nil, nil, nil)
+			if err := c0.Compile(parse("a := 1; b := 2; c := 3; d := 4; e := 5\n")); err != nil {
+				return false, ""
+			}
+			base := c0.Bytecode().Constants
+			if cap(base) == len(base) {
+				base = append(make([]tengo.Object, 0, len(base)+8), base...)
+			}
+			cA := tengo.NewCompiler(fs.AddFile("(a)", -1, 0), tengo.NewSymbolTable(), base, nil, nil)
+			if err := cA.Compile(parse("mk := func(x) { return func() { return x } }\noutA := mk(1)()\n")); err != nil {
+				return false, ""
+			}
+			bA := cA.Bytecode()
+			snapshot := append([]tengo.Object{}, bA.Constants...)
+			cB := tengo.NewCompiler(fs.AddFile("(b)", -1, 0), tengo.NewSymbolTable(), base, nil, nil)
+			if err := cB.Compile(parse("outB := \"boom\"\nx := 2.5\ny := 'c'\n")); err != nil {
+				return false, ""
+			}
+			for i := range snapshot {
+				if bA.Constants[i] != snapshot[i] {
+					return true, fmt.Sprintf("constant %d of the first compiler's Bytecode was overwritten by the second compiler (%s -> %s)", i, snapshot[i].TypeName(), bA.Constants[i].TypeName())
+				}
+			}
+			globals := make([]tengo.Object, tengo.GlobalsSize)
+			if err := tengo.NewVM(bA, globals, -1).Run(); err != nil {
+				return true, "run of the first Bytecode: " + err.Error()
+			}
+			return false, ""
+		}},
+	{ID: "O48", Props: []string{"C02", "C01"}, Input: "a0 := true … a65536 := true (65537 global definitions); a65536 = false; out := a0   through the Compiler API, VM with 70000 global slots", WhatFail: "global indexes are 2-byte operands and the compiler had no limit: SETG for global #65536 was emitted as SETG 0, a0 was overwritten and out ended false, with no error",
+		Run: func() (fails bool, obs string) {
+			defer func() {
+				if r := recover(); r != nil {
+					fails, obs = true, fmt.Sprintf("panic: %v", r)
+				}
+			}()
+			var sb strings.Builder
+			for i := 0; i <= 65536; i++ {
+				fmt.Fprintf(&sb, "a%d := true\n", i)
+			}
+			sb.WriteString("a65536 = false\nout := a0\n")
+			src := []byte(sb.String())
+			fs := parser.NewFileSet()
+			f, err := parser.NewParser(fs.AddFile("(main)", -1, len(src)), src, nil).ParseFile()
+			if err != nil {
+				return false, ""
+			}
+			st := tengo.NewSymbolTable()
+			cp := tengo.NewCompiler(fs.AddFile("(x)", -1, 0), st, nil, nil, nil)
+			if err := cp.Compile(f); err != nil {
+				return false, "" // rejected at compile time
+			}
+			globals := make([]tengo.Object, 70000)
+			if err := tengo.NewVM(cp.Bytecode(), globals, -1).Run(); err != nil {
+				return false, ""
+			}
+			if so, _, ok := st.Resolve("out", false); ok && so.Index < len(globals) {
+				if g := globals[so.Index&0xFFFF]; g == tengo.FalseValue {
+					return true, "out is false although a0 was never assigned false: the operand of SETG a65536 wrapped to 0"
+				}
+				if g := globals[so.Index]; g == tengo.FalseValue {
+					return true, "out is false although a0 was never assigned false"
+				}
+			}
+			return false, ""
+		}},
 }
 
 // formatVsGo: tengo.Format on one operand against fmt.Sprintf on the corresponding Go value.
